@@ -98,7 +98,7 @@ func runConcurrent(t *verifsim.Tape, cfg engine.Config) *engine.Outcome {
 			ct.cur.unhandled = append(ct.cur.unhandled, err)
 		}
 	}
-	ncfg := simnet.Config{Yields: true, Chunking: true, ForceChunked: 200, HeaderNoise: 200, Delay: 150}
+	ncfg := simnet.Config{Yields: true, Chunking: true, ForceChunked: 200, HeaderNoise: 200, Delay: 150, DoubleClose: 150}
 	sys, err := gen.Assemble(name, t, ncfg, handler, auth, errh)
 	if err != nil {
 		o.Violate("harness_assemble", "harness_assemble", "%v", err)
